@@ -493,7 +493,7 @@ for _name, _shape, _tier in _shapes.family(_seed):
     _spec = _shapes.Spec(_shape)
     _ns = len(_spec.states)
     for _e in ('proof_shape_tables', 'proof_shape_dispatch'):
-        job(id='C17.%s.%s' % (_name, _e[12:]), tu='tier_d/shape.cpp', defs=_spec.defines(), entry=_e, props=['C17'] + (['C11'] if _tier == 'quick' and _ns <= 12 and not _name.startswith('random') else []), quick_for=['C17'],      # (seed-dependent shapes carry no C11 claim) tier=_tier,
+        job(id='C17.%s.%s' % (_name, _e[12:]), tu='tier_d/shape.cpp', defs=_spec.defines(), entry=_e, props=['C17'] + (['C11'] if _tier == 'quick' and _ns <= 12 and not _name.startswith('random') else []), quick_for=['C17'], tier=_tier,      # (seed-dependent shapes carry no C11 claim)
             unwind=max(_ns, 2 * _spec.prongs, 8 * _spec.units) + 3, objbits=12, timeout=900,
             carriers=[r'S_<.*>::deepRegister', r'C_<.*>::deepRegister|O_<.*>::deepRegister', r'RF_<.*>::stateId<'] if _e == 'proof_shape_tables' else [r'R_<.*>::immediateChangeTo|R_<.*>::changeTo', r'RegistryT<.*>::isActive'],
             case_key='shape %s = %s' % (_name, _spec.text()))
